@@ -188,7 +188,8 @@ func runResolveCase(c *expCase) []*resObs {
 		var kind string
 		switch a.Kind {
 		case "s":
-			more, kind = [][]string{{"properties", "No/Such"}, {"allOf", "7"}, {"items"}, {"definitions", "missing"}}, "s"
+			more, kind = [][]string{{"properties", "No/Such"}, {"allOf", "7"}, {"items"}, {"definitions", "missing"}, {"not"}, {"additionalProperties"},
+				{"additionalItems"}, {"items", "0"}, {"xml"}, {"externalDocs"}}, "s"
 		case "p", "r":
 			more, kind = [][]string{{"schema", "properties", "nope"}}, "s"
 		case "i":
